@@ -15,6 +15,12 @@ R1  TLC checks MC_Subhint.tla (EXTENDS Subhint EXTENDS Semantics): for a bounded
     violates transitivity, and h <= h raising violates reflexivity); transitivity is demanded for ALL hints
     including Any (the statement exempts Any only from soundness) - the violations through Any carry their own
     keys; soundness is judged only for pairs without Any whose left side has a full meaning in the universe.
+    Repr twins: the hint set contains pairs of DISTINCT hints with one repr() and different meanings (same-named
+    TypeVars with different bounds / constraints, same-named NewTypes over different bases, classes made by one
+    factory; bare and nested).  The wrapper cache of doormeta is a state machine of MC_Subhint.tla keyed on the
+    hint (Coh_Singleton, Coh_HintIsH: TypeHint(h).hint is h and twins get distinct wrappers, Sound_Twin); keyed on
+    repr(hint) (spec mutant "repr_key") TLC rejects Coh_HintIsH and Sound_Twin.  On the real code both twins are
+    wrapped and queried in ONE process in both orders (_twins).
 R2  for every enumerated ordered pair the real is_subhint(A, B) and TypeHint(A) == TypeHint(B)
     (value or exception class) are collected (two spellings of every hint) and
       * compared with the faithful IsSub / EqH of the model (binding strength; spec drift only),
@@ -101,21 +107,33 @@ class World19(World):
         if k == "cls":
             if s == "NoneType":
                 return None
+            if s.startswith("K:"):          # classes made by one factory: one repr(), different bases
+                if s not in self.classes:
+                    for base in ("int", "str"):
+                        c = _make_k(self.classes[base])
+                        c.__name__ = c.__qualname__ = f"K_{self.n}"
+                        self.classes["K:" + base] = c
+                return self.classes[s]
             return self._TYPING_CLS[s] if (old and s in self._TYPING_CLS) else self.classes[s]
         if k == "newtype":
+            if h["m"]:                      # explicitly named: same-named NewTypes over different bases
+                key = f"NTW{h['m'][0]['v']}_{self.n}/{s}"
+                if key not in self._named:
+                    self._named[key] = T.NewType(key.split("/")[0], self.classes[s])
+                return self._named[key]
             name = f"NT_{s}_{self.n}"
             if name not in self._named:
                 self._named[name] = T.NewType(name, self.classes[s])
             return self._named[name]
         if k == "tvar":
-            name = f"TV{self.n}_{len(self._named)}"
+            name = f"TW{h['m'][0]['v']}_{self.n}" if h["m"] else f"TV{self.n}_{len(self._named)}"
             if s == "free":
                 tv = T.TypeVar(name)
             elif s == "bound":
                 tv = T.TypeVar(name, bound=self.hint(a[0], 0))
             else:
                 tv = T.TypeVar(name, *[self.hint(c, 0) for c in a])
-            self._named[name] = tv
+            self._named[name + "/" + okey(h)] = tv
             # one TypeVar per abstract description, whatever the spelling
             for spx in (0, 1):
                 self._hc[(okey(h), spx)] = tv
@@ -170,13 +188,21 @@ class World19(World):
         raise KeyError(k)
 
 
+def _make_k(base):
+    class K(base):
+        pass
+    return K
+
+
 def sh(h) -> str:
     """short_hint of sem extended by the kinds of Subhint.tla."""
     k, s, a = h["k"], h["s"], h["a"]
     if k == "newtype":
-        return f"NewType({s})"
+        return f"NewType('N{h['m'][0]['v']}',{s})" if h["m"] else f"NewType({s})"
+    if k == "cls" and s.startswith("K:"):
+        return f"K({s[2:]})"
     if k == "tvar":
-        return "TypeVar(" + {"free": "", "bound": "bound=" + (sh(a[0]) if a else ""),
+        return "TypeVar(" + (f"'T{h['m'][0]['v']}'," if h["m"] else "") + {"free": "", "bound": "bound=" + (sh(a[0]) if a else ""),
                              "constr": ",".join(sh(c) for c in a)}[s] + ")"
     if k == "call":
         return "Callable[" + ("..." if s == "ellipsis" else "[" + ",".join(sh(c) for c in a[:-1]) + "]") + "," + sh(a[-1]) + "]"
@@ -214,7 +240,7 @@ CONSTANTS
 %(invs)s
 CHECK_DEADLOCK FALSE
 """
-INV_A = ["Reflexive", "Sound", "Coh_Children", "Coh_Singleton"]
+INV_A = ["Reflexive", "Sound", "Coh_Children", "Coh_Singleton", "Coh_HintIsH", "Sound_Twin"]
 INV_B = ["Reflexive", "Transitive", "TransitiveNoAny", "Coh_EqHash", "Coh_EqMutual"]
 _VIOL = __import__("re").compile(r"Error: Invariant (\S+) is violated")
 
@@ -598,17 +624,22 @@ FA_LABEL = "flags LegacyFaithful (beartype 0.23.0)"
 
 def _r1_rows(rep, tier, d, rows_dir):
     """MC_Subhint.tla: the demanded relation (+ rows), the 0.23.0 flags and the spec mutants (must be rejected)."""
-    muts = ["issubclass_swapped", "no_wrapper_cache"] if tier == "quick" else SPEC_MUTANTS + ["no_wrapper_cache"]
-    with ThreadPoolExecutor(max_workers=5) as ex:
+    # (mutant flag, invariants of the run, the invariant that must reject it)
+    cache_inv = ["Coh_Singleton", "Coh_HintIsH"]
+    muts = [("repr_key", cache_inv, "Coh_HintIsH"), ("issubclass_swapped", INV_A, "Sound"),
+            ("no_wrapper_cache", cache_inv, "Coh_Singleton")]
+    if tier != "quick":
+        muts += [(m, INV_A, "Sound") for m in SPEC_MUTANTS[1:]] + [("repr_key", ["Sound_Twin"], "Sound_Twin")]
+    with ThreadPoolExecutor(max_workers=6) as ex:
         f_main = ex.submit(tlc_rows, d, "intended", tier, [], INV_A, emit_dir=rows_dir, workers=8)
         f_faith = {inv: ex.submit(tlc_rows, d, "faithful_" + inv, "quick", FAITHFUL, [inv], workers=2)
                    for inv in ("Sound", "Coh_Children")}
-        half = (len(muts) + 1) // 2
-        f_muts = [ex.submit(lambda ms=ms: [(m, tlc_rows(d, "mut_" + m, "quick", [m], INV_A, workers=2)) for m in ms])
-                  for ms in (muts[:half], muts[half:]) if ms]
+        f_muts = [ex.submit(lambda ms=ms: [(m, want, tlc_rows(d, f"mut_{m}_{want}", "quick", [m], invs, workers=2))
+                                           for m, invs, want in ms])
+                  for ms in (muts[0::3], muts[1::3], muts[2::3]) if ms]
         res = f_main.result()
-        rep.tlc(res, f"MC_Subhint {tier}, flags {{}} (the demanded relation): Reflexive, Sound, Coh_Children, "
-                     f"Coh_Singleton + rows")
+        rep.tlc(res, f"MC_Subhint {tier}, flags {{}} (the demanded relation, cache keyed on the hint): Reflexive, Sound, "
+                     f"Coh_Children, Coh_Singleton, Coh_HintIsH, Sound_Twin + rows")
         if res.violated:
             at = [s_.get("ia") for _, s_ in res.error_trace][-1:]
             rep.machinery(f"MC_Subhint ({tier}) violates {res.violated} under the demanded relation at hint index {at}: "
@@ -616,10 +647,9 @@ def _r1_rows(rep, tier, d, rows_dir):
         for inv, f in f_faith.items():
             _rejected(rep, f.result(), inv, "MC_Subhint quick, " + FA_LABEL)
         for f in f_muts:
-            for m, r in f.result():
+            for m, want, r in f.result():
                 if not r.violated:
                     rep.machinery(f"spec mutant {m} is not rejected by any invariant: vacuous model")
-                want = "Coh_Singleton" if m == "no_wrapper_cache" else "Sound"
                 if r.violated != want:
                     rep.note(f"spec mutant {m} rejected by {r.violated} (expected {want})")
                 rep.tlc(r, f"MC_Subhint quick, spec mutant {m}: rejected by {r.violated}")
@@ -629,8 +659,10 @@ def _r1_rows(rep, tier, d, rows_dir):
     if any(r is None for r in rows) or len(rows) < 100:
         rep.machinery(f"rows missing: {sum(r is None for r in rows)} of {len(rows)}")
     n = len(rows)
-    if res.distinct != 1 + (n + 3) // 4 + 3 * n:      # Init, the chunks, and PickHint / WrapOnce / WrapAgain per hint
-        rep.machinery(f"MC_Subhint explored {res.distinct} states, expected {1 + (n + 3) // 4 + 3 * n}: an action was not "
+    ntw = sum(1 for r in rows if r["twin"])
+    want = 1 + (n + 3) // 4 + 3 * n + ntw     # Init, the chunks, PickHint / WrapOnce / WrapAgain per hint, WrapTwin per twin
+    if res.distinct != want or ntw < 6:
+        rep.machinery(f"MC_Subhint explored {res.distinct} states, expected {want} ({ntw} repr twins): an action was not "
                       f"taken for every hint")
     return meta, rows
 
@@ -692,7 +724,8 @@ def run(rep, tier, seed):
             laws = _r1_laws_start(ex, d, rows)
             results = pool.map(_worker, [(rows_dir, c, seed) for c in chunks], chunksize=1)
             _r1_laws_finish(rep, laws, meta)
-        _judge(rep, tier, seed, meta, rows, results)
+        R = _judge(rep, tier, seed, meta, rows, results)
+        _twins(rep, meta, rows, R)
         _generics(rep)
 
 
@@ -915,6 +948,116 @@ def _judge(rep, tier, seed, meta, rows, results):
     rep.cov["violation_classes"] = {"soundness": len(skeys), "transitivity": len(tkeys), "eq_hash": len(hk),
                                     "eq_mutual": len(mk), "coherence": len(ck)}
     rep.cov["exhaustive"] = True
+    return R
+
+
+def twin_kind(h):
+    if h["k"] == "tvar" and h["m"]:
+        return "same-named TypeVars"
+    if h["k"] == "newtype" and h["m"]:
+        return "same-named NewTypes"
+    if h["k"] == "cls" and h["s"].startswith("K:"):
+        return "same-qualname classes"
+    for c in h["a"]:
+        k = twin_kind(c)
+        if k:
+            return k
+    return None
+
+
+def _twins(rep, meta, rows, R):
+    """Repr twins: two DISTINCT hints with one repr() and different meanings, wrapped and queried in ONE process, in
+    both orders (a fresh world per order).  Judged on the real answers: TypeHint(h).hint is h, distinct wrappers for
+    the two twins, soundness of every True answer of either twin against the spec's Sat, transitivity of every
+    triple that contains a twin (answers between other hints: the matrix R of the main replay)."""
+    from beartype.door import TypeHint, is_bearable, is_subhint
+    from beartype.roar import BeartypeDoorIsSubhintException as XC
+    hints, objs, lcm = meta["hints"], meta["objs"], meta["lcm"]
+    n = len(hints)
+    S = [sh(h) for h in hints]
+    pairs = sorted({tuple(sorted((i, r["twin"] - 1))) for i, r in enumerate(rows) if r["twin"]})
+    calls = drift = 0
+    seen = {}
+
+    def viol(key, what, case):
+        k = json.dumps(key, sort_keys=True)
+        if k not in seen:
+            seen[k] = True
+            rep.violation(key, what, case)
+    for (i, j) in pairs:
+        for first, second in ((i, j), (j, i)):
+            w = World19()
+            H = [w.hint(h, 0) for h in hints]
+            real = [None] * len(objs)
+            kind = twin_kind(hints[first])
+            case = {"law": "twins", "a": hints[first], "b": hints[second]}
+            who = (f"H1 = {H[first]!r} [{S[first]}] wrapped first, then its repr twin H2 = {H[second]!r} [{S[second]}] "
+                   f"(H1 is not H2, H1 != H2, repr equal: {repr(H[first]) == repr(H[second])})")
+            t1 = TypeHint(H[first])
+            t2 = TypeHint(H[second])
+            rep.nontrivial(f"twin:{kind}:{shape(hints[first])}")
+            if repr(H[first]) != repr(H[second]) or H[first] is H[second]:
+                rep.machinery(f"not repr twins: {H[first]!r} / {H[second]!r}")
+            if t1 is t2:
+                viol({"law": "wrapper coherence", "check": "repr twins share one wrapper", "twins": kind},
+                     f"TypeHint(H1) is TypeHint(H2): {who}", case)
+            for t, hx, nm in ((t1, H[first], "H1"), (t2, H[second], "H2")):
+                if t.hint is not hx:
+                    viol({"law": "wrapper coherence", "check": "TypeHint(h).hint is not h", "twins": kind},
+                         f"TypeHint({nm}).hint is {t.hint!r} (a different object than {nm}): {who}", case)
+            # the rows and columns of both twins in this world
+            Rt = {}
+            for x in (first, second):
+                for b in range(n):
+                    Rt[(x, b)] = _sub(is_subhint, XC, H[x], H[b])
+                    Rt[(b, x)] = _sub(is_subhint, XC, H[b], H[x])
+                    calls += 2
+                    drift += Rt[(x, b)] != R[x][b] or Rt[(b, x)] != R[b][x]
+
+            M = [r_[:] for r_ in R]
+            for (p, q), v in Rt.items():
+                M[p][q] = v
+            up = [[q for q in range(n) if M[p][q] == 1] for p in range(n)]
+            down = [[p for p in range(n) if M[p][q] == 1] for q in range(n)]
+            for x in (first, second):
+                rx = rows[x]
+                if rx["judged"]:
+                    for b in up[x]:
+                        if rows[b]["hasany"]:
+                            continue
+                        bad = None
+                        for jx in rx["sat"]:
+                            if real[jx - 1] is None and objs[jx - 1]["k"] != "iter":
+                                real[jx - 1] = w.obj(objs[jx - 1])
+                            for r in range(lcm):
+                                DRAW.value = r
+                                xo = real[jx - 1] if real[jx - 1] is not None else w.obj(objs[jx - 1])
+                                calls += 1
+                                if not is_bearable(xo, H[b]):
+                                    bad = jx
+                                    break
+                            if bad:
+                                break
+                        if bad:
+                            viol({"law": "soundness", "hints": "repr twins", "twins": kind},
+                                 f"is_subhint(A, B) is True for A = {H[x]!r} [{S[x]}], B = {H[b]!r} [{S[b]}] but "
+                                 f"{short_obj(objs[bad - 1])} fully satisfies A (Sat of Semantics.tla) and is_bearable(x, B) is "
+                                 f"False; {who}", {**case, "b2": hints[b], "obj": objs[bad - 1]})
+                # transitivity of the triples that contain this twin (others: the main replay)
+                trip = [(x, b, c) for b in up[x] for c in up[b]] + [(b, x, c) for b in down[x] for c in up[x]] + \
+                       [(b, c, x) for c in down[x] for b in down[c]]
+                for (p, q, r_) in trip:
+                    if M[p][r_] != 1 and not (R[p][q] == 1 and R[q][r_] == 1 and R[p][r_] == M[p][r_]):
+                        viol({"law": "transitivity", "hints": "repr twins", "twins": kind},
+                             f"is_subhint(A, B) and is_subhint(B, C) are True but is_subhint(A, C) is not: A = {H[p]!r} "
+                             f"[{S[p]}], B = {H[q]!r} [{S[q]}], C = {H[r_]!r} [{S[r_]}]; {who}",
+                             {**case, "triple": [hints[p], hints[q], hints[r_]]})
+    rep.count(calls)
+    rep.add("repr_twin_pairs_both_orders", 2 * len(pairs))
+    if len(pairs) < 6:
+        rep.machinery(f"only {len(pairs)} repr-twin pairs enumerated")
+    if drift:
+        rep.spec_drift(f"{drift} is_subhint answers involving a repr twin differ between the twin worlds and the main replay")
 
 
 def _generics(rep):
@@ -990,6 +1133,22 @@ def replay(rep, path):
         print("user-generics slice (classes are rebuilt by the check):", case["note"])
         _generics(rep)
         rep.level = "exploration"
+        return
+    if case.get("law") == "twins":
+        for order in (("a", "b"), ("b", "a")):
+            w = World19()
+            h1, h2 = w.hint(case[order[0]], 0), w.hint(case[order[1]], 0)
+            t1, t2 = TypeHint(h1), TypeHint(h2)
+            print(f"H1 = {h1!r} [{sh(case[order[0]])}] wrapped first, H2 = {h2!r} [{sh(case[order[1]])}]: H1 is H2: {h1 is h2}; "
+                  f"TypeHint(H1) is TypeHint(H2): {t1 is t2}; TypeHint(H1).hint is H1: {t1.hint is h1}; "
+                  f"TypeHint(H2).hint is H2: {t2.hint is h2}")
+            for nm, bb in (("int", int), ("str", str)):
+                print(f"  is_subhint(H1, {nm}) = {_sub(is_subhint, XC, h1, bb)}, is_subhint(H2, {nm}) = "
+                      f"{_sub(is_subhint, XC, h2, bb)}")
+            rep.count(4)
+        rep.level = "exploration"
+        rep.nontrivial("a")
+        rep.nontrivial("b")
         return
     w = World19()
     hs = {k: case[k] for k in ("a", "b", "c") if k in case}
